@@ -409,6 +409,12 @@ impl<R: io::Read> io::Read for CompressedDataPartialGenerator<R> {
                 PacketLength::Fixed(len)
             };
 
+            crate::verif_event!(
+                "cmp.chunk",
+                self.is_first,
+                buf_size,
+                matches!(packet_length, PacketLength::Partial(_))
+            );
             let mut writer = std::mem::take(&mut self.current_packet).writer();
             if self.is_first {
                 // only the first packet needs the literal data header
